@@ -776,6 +776,18 @@ class Lower:
         if 'expr_lam' in st and any(a.strip().startswith('VS_LAM(') for a in argl):
             x = st['expr_lam']
         lo = st.get('literal_only')
+        def _islit(a):
+            a = a.strip()
+            while a.startswith('(') and a.endswith(')'):
+                a = a[1:-1].strip()
+            return a.startswith('"') and a.endswith('"')
+        if lo:
+            argl = [(a.strip()[1:-1].strip() if (lo is True or i in lo) and _islit(a) and a.strip().startswith('(') else a) for i, a in enumerate(argl)]
+            while any((lo is True or i in lo) and a.startswith('(') and _islit(a) for i, a in enumerate(argl)):
+                argl = [(a[1:-1].strip() if (lo is True or i in lo) and a.startswith('(') and _islit(a) else a) for i, a in enumerate(argl)]
+        if lo and 'expr_nonlit' in st and not all(a.strip().startswith('"') for i, a in enumerate(argl) if lo is True or i in lo):
+            x = st['expr_nonlit']          # the same call with an argument that is not a string literal
+            lo = None
         if lo and not all(a.strip().startswith('"') for i, a in enumerate(argl) if lo is True or i in lo):
             raise Abort('stub %r is only valid for string literals (in %s)' % (x, self.cur_fn))
         if objp is not None:
@@ -1241,7 +1253,11 @@ class Lower:
             self.loop_depth.pop()
             self.loop_id_stack.pop()
             return ln + pad + 'while (%s)\n' % c + lc + b
-        if k == 'DoStmt' and self.inner(n)[1].get('kind') == 'CXXBoolLiteralExpr' and not self.inner(n)[1].get('value'):
+        def _const_false(c):
+            while c.get('kind') in ('ImplicitCastExpr', 'ParenExpr'):
+                c = self.inner(c)[0]
+            return (c.get('kind') == 'CXXBoolLiteralExpr' and not c.get('value')) or (c.get('kind') == 'IntegerLiteral' and c.get('value') == '0')
+        if k == 'DoStmt' and _const_false(self.inner(n)[1]):
             # do { ... } while (false): a block with early exits, not a loop (no loop contract, no ordinal)
             ins = self.inner(n)
             self.loop_depth.append(len(self.scopes))
@@ -1566,6 +1582,17 @@ class Lower:
             return '' if hoist else pad + '%s %s;\n' % (ct, nm)
         x = self.E(init)
         if self.is_ref(qt):
+            if re.match(r'^\(?\w+\(.*\)\)?$', x) and not x.startswith('(*') and ct.endswith('*') and ct.startswith('struct'):
+                # a reference bound to a temporary (auto&& r = f();): the temporary lives as long as the reference
+                tt = 'vs_t%d' % self.tmp
+                self.tmp += 1
+                if self.cur_spec.get('hoist_all') and self.loop_depth:
+                    self.hoisted.append('%s %s;' % (ct[:-1].strip(), tt))
+                    self.hoisted_names.append((tt, tuple(self.loop_id_stack)))
+                    self.pre.append('%s = %s;' % (tt, x))
+                else:
+                    self.pre.append('%s %s = %s;' % (ct[:-1].strip(), tt, x))
+                x = tt
             x = self.addr(x)
         pre = self.flush_pre(ind)
         if ct in self.guarded:
@@ -1746,6 +1773,9 @@ class Lower:
 
     def ret_qt(self, d):
         sig = self.qt(d)
+        m = re.match(r'^typename std::enable_if<[^,]*,\s*(.*?)>::type\s*\(', sig)
+        if m:
+            return m.group(1).strip()          # SFINAE return type of an instantiated template: enable_if<cond, T>::type is T
         # return type is everything before the parameter list's opening parenthesis at depth 0
         depth = 0
         for i, ch in enumerate(sig):
@@ -1990,16 +2020,18 @@ def select_functions(ast, unit):
                 continue
             if w.get('sig') and w['sig'] not in (n.get('type') or {}).get('qualType', ''):
                 continue
+            if w.get('sig_exact') and w['sig_exact'] != (n.get('type') or {}).get('qualType', ''):
+                continue
             if 'targs' in w and [c.get('value', (c.get('type') or {}).get('qualType')) for c in n.get('inner', []) if isinstance(c, dict) and c.get('kind') == 'TemplateArgument'] != w['targs']:
                 continue                      # explicit specialisation picked by its template arguments
-            key = (q, w.get('sig'), str(w.get('targs')))
+            key = (q, w.get('sig') or w.get('sig_exact'), str(w.get('targs')))
             cur = chosen.get(key)
             if cur is None or (has_body(n) and not has_body(cur[0])):
                 chosen[key] = (n, w)
-    missing = [w['q'] + (' ' + w['sig'] if w.get('sig') else '') for w in want if (w['q'], w.get('sig'), str(w.get('targs'))) not in chosen]
+    missing = [w['q'] + (' ' + w['sig'] if w.get('sig') else '') for w in want if (w['q'], w.get('sig') or w.get('sig_exact'), str(w.get('targs'))) not in chosen]
     if missing:
         raise Abort('functions listed in the unit but not found in the AST (renamed or removed?): %s' % ', '.join(missing))
-    return [chosen[(w['q'], w.get('sig'), str(w.get('targs')))] for w in want]
+    return [chosen[(w['q'], w.get('sig') or w.get('sig_exact'), str(w.get('targs')))] for w in want]
 
 
 def lower_unit(ast, unit):
